@@ -1,6 +1,150 @@
-/-! Driver commands of the `Quote` cluster.  `handle` returns `none` for commands that are not its own. -/
-namespace Driver.Quote
+import TbotVerif.Spec.Quote
+/-! Driver commands of the `Quote` cluster.  `handle` returns `none` for commands that are not its own.
 
-def handle (_toks : List String) : Option String := none
+    quote esc <bash|ash> <bl> <args>      → l:<hex> | x:TypeError
+    quote split <line>                    → w:<words> | hazard
+    quote hush <bl> <args>                → l:<hex> | x:TypeError
+    quote hsplit <line>                   → w:<words> | hazard        (hush tokenizer, for reuse)
+    spec C01Q <esc…|split…> || <obs>      → 1 | 0
+    spec C19Q <hush…> || <obs>            → 1 | 0
+
+    <args>  = `.` | item{,item};  item = s:<hex> (str) | p:<hex> (linux.Path, by its at_host string)
+            | r:<hex> (linux.Raw) | t:<pipe|then|and|or|bg> (static token)
+            | d:<out|err|both|in|aout|aerr|aboth>:<hex> (redirection to that path) | o (unsupported object)
+    <words> = `.` | hex{,hex}   (`-` = empty string).
+    The token texts come from the regenerated `Params.sp…`. -/
+namespace Driver.Quote
+open _root_.Quote
+
+def str (s : String) : Bytes := s.toUTF8.toList
+
+def staticTok : String → Option Bytes
+  | "pipe" => some (str Params.spPipe)
+  | "then" => some (str Params.spThen)
+  | "and" => some (str Params.spAndThen)
+  | "or" => some (str Params.spOrElse)
+  | "bg" => some (str Params.spBackground)
+  | _ => none
+
+def redirTok : String → Option (Bytes × Bytes)
+  | "out" => some (str Params.spRedirStdoutPre, str Params.spRedirStdoutPost)
+  | "err" => some (str Params.spRedirStderrPre, str Params.spRedirStderrPost)
+  | "both" => some (str Params.spRedirBothPre, str Params.spRedirBothPost)
+  | "in" => some (str Params.spRedirStdinPre, str Params.spRedirStdinPost)
+  | "aout" => some (str Params.spAppendStdoutPre, str Params.spAppendStdoutPost)
+  | "aerr" => some (str Params.spAppendStderrPre, str Params.spAppendStderrPost)
+  | "aboth" => some (str Params.spAppendBothPre, str Params.spAppendBothPost)
+  | _ => none
+
+def arg (s : String) : Option Arg :=
+  match s.splitOn ":" with
+  | ["s", h] => (Bytes.ofHex h).map .str
+  | ["p", h] => (Bytes.ofHex h).map .str
+  | ["r", h] => (Bytes.ofHex h).map .raw
+  | ["t", n] => (staticTok n).map .raw
+  | ["d", n, h] => do
+    let (pre, post) ← redirTok n
+    pure (.redir pre (← Bytes.ofHex h) post)
+  | ["o"] => some .other
+  | _ => none
+
+def args (s : String) : Option (List Arg) :=
+  if s == "." then some [] else (s.splitOn ",").mapM arg
+
+/-- U-Boot's `escape` takes strings and Specials only (a redirection needs a `linux.Path`, which
+    it rejects; `p:` is therefore the unsupported-object case there) -/
+def hArg (s : String) : Option Hush.Arg :=
+  match s.splitOn ":" with
+  | ["s", h] => (Bytes.ofHex h).map .str
+  | ["r", h] => (Bytes.ofHex h).map .raw
+  | ["t", n] => (staticTok n).map .raw
+  | ["p", h] => (Bytes.ofHex h).map fun _ => .other
+  | ["o"] => some .other
+  | _ => none
+
+def hArgs (s : String) : Option (List Hush.Arg) :=
+  if s == "." then some [] else (s.splitOn ",").mapM hArg
+
+def words (ws : List Bytes) : String :=
+  if ws.isEmpty then "." else ",".intercalate (ws.map Bytes.toHex)
+
+def wordsOf (s : String) : Option (List Bytes) :=
+  if s == "." then some [] else (s.splitOn ",").mapM Bytes.ofHex
+
+def obs : Obs → String
+  | .line l => "l:" ++ Bytes.toHex l
+  | .typeError => "x:TypeError"
+  | .words ws => "w:" ++ words ws
+  | .hazard => "hazard"
+
+def obsOf (toks : List String) : Option Obs :=
+  match toks with
+  | ["hazard"] => some .hazard
+  | ["x:TypeError"] => some .typeError
+  | [t] =>
+    match t.splitOn ":" with
+    | ["l", h] => (Bytes.ofHex h).map .line
+    | ["w", w] => (wordsOf w).map .words
+    | _ => none
+  | _ => none
+
+def hObs : Hush.Obs → String
+  | .line l => "l:" ++ Bytes.toHex l
+  | .typeError => "x:TypeError"
+
+def hObsOf (toks : List String) : Option Hush.Obs :=
+  match toks with
+  | ["x:TypeError"] => some .typeError
+  | [t] =>
+    match t.splitOn ":" with
+    | ["l", h] => (Bytes.ofHex h).map .line
+    | _ => none
+  | _ => none
+
+def caseOf (toks : List String) : Option Case :=
+  match toks with
+  | ["esc", sh, bl, a] =>
+    if sh == "bash" || sh == "ash" then do pure (.esc (← Bytes.ofHex bl) (← args a)) else none
+  | ["split", l] => (Bytes.ofHex l).map .split
+  | _ => none
+
+def hCaseOf (toks : List String) : Option Hush.Case :=
+  match toks with
+  | ["hush", bl, a] => do pure { bl := ← Bytes.ofHex bl, args := ← hArgs a }
+  | _ => none
+
+def splitAt2 (toks : List String) (sep : String) : List String × List String :=
+  (toks.takeWhile (· != sep), (toks.dropWhile (· != sep)).drop 1)
+
+def b01 (b : Bool) : String := if b then "1" else "0"
+
+/-- `none`: not a command of this cluster -/
+def handle (toks : List String) : Option String :=
+  match toks with
+  | "quote" :: "hsplit" :: rest =>
+    some (match rest with
+      | [l] => match Bytes.ofHex l with
+        | some b => (match Hush.hushWords b with | some ws => "w:" ++ words ws | none => "hazard")
+        | none => "bad-op"
+      | _ => "bad-op")
+  | "quote" :: "hush" :: rest =>
+    some (match hCaseOf ("hush" :: rest) with
+      | some c => hObs (Hush.run c)
+      | none => "bad-op")
+  | "quote" :: rest =>
+    some (match caseOf rest with
+      | some c => obs (run c)
+      | none => "bad-op")
+  | "spec" :: "C01Q" :: rest =>
+    let (c, o) := splitAt2 rest "||"
+    some (match caseOf c, obsOf o with
+      | some c, some o => b01 (Spec.C01Q c o)
+      | _, _ => "bad-op")
+  | "spec" :: "C19Q" :: rest =>
+    let (c, o) := splitAt2 rest "||"
+    some (match hCaseOf c, hObsOf o with
+      | some c, some o => b01 (Spec.C19Q c o)
+      | _, _ => "bad-op")
+  | _ => none
 
 end Driver.Quote
